@@ -143,7 +143,7 @@ def run(rep, tier, seed):
     forms += d3
     # depth 3 and 4: sampled
     pool = list(forms[:len(forms) - len(d3)])
-    for _ in range(1500 if quick else 40000):
+    for _ in range(4000 if quick else 40000):
         r = rng.random()
         if r < 0.7:
             f = (rng.choice(BINARY), rng.choice(pool), rng.choice(pool))
